@@ -34,19 +34,27 @@ Lemma fa_errs_err : forall ta an, forallb is_err (fa_errs ta an) = true.
 Proof. intros. unfold fa_errs. destruct (fa_dup ta an); reflexivity. Qed.
 Lemma err_toks_err : forall v, forallb is_err (err_toks v) = true.
 Proof. induction v as [|c v IH]; simpl; auto. destruct (reported c); simpl; auto. Qed.
+Lemma char_errs_err : forall c, forallb is_err (char_errs c) = true.
+Proof. intro c. unfold char_errs. destruct (bad_char c); reflexivity. Qed.
+Lemma bad_errs_err : forall s, forallb is_err (bad_errs s) = true.
+Proof. induction s as [|c s IH]; simpl; auto. apply forallb_app'; [apply char_errs_err|exact IH]. Qed.
+Lemma an_errs_err : forall ta an n, forallb is_err (an_errs ta an n) = true.
+Proof.
+  intros ta an [|c r]; simpl; [apply fa_errs_err|].
+  apply forallb_app'; [apply char_errs_err|apply forallb_app'; [apply fa_errs_err|apply bad_errs_err]].
+Qed.
 Lemma pend_errs_err : forall l ta an av, forallb is_err (pend_errs ta an av l) = true.
 Proof.
   induction l as [|[n v] l IH]; intros; simpl; auto.
-  apply forallb_app'; [apply fa_errs_err|apply forallb_app'; [apply err_toks_err|apply IH]].
+  apply forallb_app'; [apply an_errs_err|apply forallb_app'; [apply err_toks_err|apply IH]].
 Qed.
-Lemma tag_errs_err : forall l, forallb is_err (tag_errs_of l) = true.
+Lemma tag_errs_err : forall nm l, forallb is_err (tag_errs_of nm l) = true.
 Proof.
-  intro l. unfold tag_errs_of. destruct (pend [] [] [] l) as [[ta an] av].
+  intros nm l. unfold tag_errs_of. apply forallb_app'; [apply bad_errs_err|].
+  destruct (pend [] [] [] l) as [[ta an] av].
   apply forallb_app'; [apply pend_errs_err|apply fa_errs_err].
 Qed.
 
-Lemma bad_errs_err : forall s, forallb is_err (bad_errs s) = true.
-Proof. induction s as [|c s IH]; simpl; auto. unfold char_errs. destruct (bad_char c); simpl; auto. Qed.
 Lemma cm_errs_err : forall s m B, forallb is_err (cm_errs m B s) = true.
 Proof.
   induction s as [|c s IH]; intros m B; simpl.
@@ -93,14 +101,15 @@ Proof.
   unfold item_ok2 in O1. apply andb_true_iff in O1. destruct O1 as [O1 O1'].
   cbn [flat_map toks map]. fold (toks r). rewrite conv_toks_app, <- !app_assoc, !map_app. rewrite !map_app in IH.
   destruct i as [nm d a|nm|s|s|t dd|n]; cbn [lex_item SM.item_rtoken TM.tokenize].
-  - rewrite conv_toks_app, (errs_conv _ (tag_errs_err _)). cbn [app conv_toks flat_map conv_tok map XUnsrc.unsrc_tok].
+  - rewrite conv_toks_app, (errs_conv _ (tag_errs_err _ _)). cbn [app conv_toks flat_map conv_tok map XUnsrc.unsrc_tok].
     simpl in O1. apply andb_true_iff in O1. destruct O1 as [_ LO].
     fold (XRoundTrip.item_raws d a). rewrite tag_attrs_same.
     + cbn [conv_kind]. apply XSplit.sp_same. exact IH.
     + apply forallb_forall. intros nv I. rewrite forallb_forall in LO. specialize (LO nv I).
       unfold raw_ok in LO. apply andb_true_iff in LO. destruct LO as [LO _].
       destruct nv as [n v]. simpl in *. destruct n; [discriminate LO|reflexivity].
-  - cbn [app conv_toks flat_map conv_tok map XUnsrc.unsrc_tok conv_kind]. apply XSplit.sp_same. exact IH.
+  - rewrite conv_toks_app, (errs_conv _ (bad_errs_err _)).
+    cbn [app conv_toks flat_map conv_tok map XUnsrc.unsrc_tok conv_kind]. apply XSplit.sp_same. exact IH.
   - rewrite exp_text_conv.
     assert (E : map XUnsrc.unsrc_tok (map (fun c => TM.TChars [c]) s) = map (fun c => TM.TChars [c]) s).
     { rewrite map_map. reflexivity. }
